@@ -119,6 +119,8 @@ func cmNonTimeAtoms() []cmAtom {
 		{text: "(host = 'a' OR region = 'x')", eval: func(p cmPoint) bool { return p.host == "a" || p.region == "x" }},
 		{text: "(host = 'b' OR value = 5)", eval: func(p cmPoint) bool { return p.host == "b" || p.value == 5 }},
 		{text: "true", eval: func(p cmPoint) bool { return true }},
+		{text: "host::tag = 'a'", eval: func(p cmPoint) bool { return p.host == "a" }},
+		{text: "(value::integer > 5 OR region::tag = 'x')", eval: func(p cmPoint) bool { return p.value > 5 || p.region == "x" }},
 	}
 }
 
